@@ -82,7 +82,7 @@ pub fn gen_op(rng: &mut Rng, spec: &WorldSpec, alphabet: usize) -> OpSpec {
         },
         10 | 11 => Op::RemoveFile { path: existing(rng) },
         12 | 13 => Op::RemoveDir { path: existing(rng) },
-        _ => Op::Rename { src: existing(rng), dst: if rng.chance(1, 2) { newp(rng) } else { existing(rng) }, flags: *rng.pick(&[0u32, 0, 1, 2, 4]) },
+        _ => Op::Rename { src: existing(rng), dst: if rng.chance(1, 2) { newp(rng) } else { existing(rng) }, flags: *rng.pick(&[0u32, 0, 0, 1, 1, 2, 4, 3, 8, 0x11, 0x8000_0000]) },
     };
     let mut s = OpSpec::new(op);
     if facade_c {
@@ -147,6 +147,9 @@ pub fn fault_scenarios() -> Vec<OpSpec> {
         o(Op::CreateFile { path: s("d/precious"), flags: libc::O_WRONLY | libc::O_EXCL, mode: 0o600 }),
         o(Op::Create { path: s("e/dangling"), kind: CreateKind::File(0o644) }),
         o(Op::Rename { src: s("d/src"), dst: s("e/dangling"), flags: 1 }),
+        // flag bits the kernel does not know: EINVAL and nothing moves (never a plain rename)
+        o(Op::Rename { src: s("d/src"), dst: s("d/precious"), flags: 8 }).c(),
+        o(Op::Rename { src: s("d/src"), dst: s("d/precious"), flags: 0x11 }),
     ]
 }
 
